@@ -171,15 +171,9 @@ fn primitive_case_with(rng: &mut Rng, out: &mut CaseOut, huge: bool) {
     tp.inverse = prim == 1;
     if huge {
         // size x blocks x 64 bytes between 64 and 160 MiB
-        let n = *rng.pick(&[1u32, 2, 5, 10, 14]);
-        tp.size = 1 << n;
-        let target = (64usize << 20) + rng.below(96 << 20);
-        tp.shard_len_64 = target.div_ceil(64 * tp.size) + rng.below(2);
-        tp.pos = 0;
-        tp.shard_count = tp.size;
-        tp.truncated = if rng.chance(1, 2) { tp.size } else { rng.range(1, tp.size) };
-        tp.skew_delta = if rng.chance(1, 2) { 0 } else { tp.size * rng.below(65536 / tp.size) };
-        out.tag(format!("huge-transform:log2={n}"));
+        tp = crate::mon_c03::huge_transform(rng);
+        tp.inverse = prim == 1;
+        out.tag(format!("huge-transform:log2={}", tp.size.trailing_zeros()));
     }
     let t_input = gen_transform_input(rng, &tp);
     let blocks = rng.range(1, 6);
